@@ -240,3 +240,11 @@ def applied_parsers(fn):
                 (lib.strip(n["args"][0]).get("res") or {}).get("dk") == "Local":
             out.append(to_grammar(n["f"], env))
     return out
+
+
+def unlook(t):
+    """`terminated(X, not(Y))` matches the text of X and looks ahead for Y without consuming it: for questions about the matched text it is X"""
+    while isinstance(t, tuple) and t[0] == "call" and str(t[1]).endswith("sequence::terminated") and isinstance(t[2], list) and len(t[2]) == 2 and \
+            isinstance(t[2][1], tuple) and t[2][1][0] in ("not", "peek"):
+        t = t[2][0]
+    return t
